@@ -641,7 +641,7 @@ def run_c17(rep, wd, tier, seed, replay):
         level = 0 if tier == "quick" else 1
         a = _tlc(_cfg(os.path.join(wd, "MC.cfg"), "CMSpec", 2, 0, 1, 1, True, level, LAWS_C17 + ["CMEmit"]), wd, "roleAB")
         rep.add_tlc(a)
-        per = 25 if tier == "quick" else 400
+        per = 15 if tier == "quick" else 400
         s = _tlc(_cfg(os.path.join(wd, "Rand.cfg"), "CMSpecRand", 4, seed % 60000, 16, per, True, level,
                       ["CMEmitR", "LawWF", "LawSelR"]), wd, "rand")
         rep.add_tlc(s)
@@ -656,7 +656,7 @@ def run_c17(rep, wd, tier, seed, replay):
         rep.extra["exhaustive_scope"] = f"all well-formed terms of CMNext up to depth 2 at Level {level}"
         rep.extra["roleA_states"] = a.distinct
         rep.extra["random_terms"] = s.distinct
-        jit_every = 47 if tier == "quick" else 7
+        jit_every = 47 if tier == "quick" else 23
     if replay:
         with open(replay) as f:
             sp0 = json.load(f)["detail"].get("sp", 0)
